@@ -618,7 +618,7 @@ def build_strategies(tier='quick'):
                 alive[s] = True
                 continue
             u = draw(st.integers(0, nunits - 1))
-            opts = ['run', 'run', 'compile', 'parse', 'parsex', 'params', 'clearparams', 'delete']
+            opts = ['run', 'run', 'compile', 'parse', 'parsex', 'params', 'clearparams', 'delete', 'install', 'install', 'uninstall']
             if u in cs[s]:
                 opts += ['runcs', 'runcs', 'dcs']
                 opts.remove('compile')
@@ -630,7 +630,7 @@ def build_strategies(tier='quick'):
                 opts += ['runcp', 'runcp', 'runcp']
             op = draw(st.sampled_from(opts))
             sfx = '@%d' % s if s else ''
-            if op in ('params', 'clearparams', 'delete'):
+            if op in ('params', 'clearparams', 'delete', 'install', 'uninstall'):
                 steps.append(op + sfx)
             else:
                 steps.append('%s:%d%s' % (op, u, sfx))
@@ -667,6 +667,8 @@ def build_strategies(tier='quick'):
         (['new', 'compile:1', 'compile:0', 'runcs:0'], 2),
         (['new', 'parse:1', 'parse:0', 'runps:0'], 2),
         (['new', 'compile:0', 'parse:0', 'runcp:0', 'runcp:0'], 1),
+        (['new', 'install', 'run:0', 'install', 'uninstall', 'run:0', 'delete'], 1),
+        (['new', 'compile:0', 'dcs:0', 'compile:0', 'delete'], 1),     # with a unit that cannot be compiled the dcs step is dropped: a failed compile must leave nothing behind
     ]
 
     @st.composite
